@@ -194,6 +194,8 @@ impl Model for {name} {{
                 dty_expr = ty_expr
                 val_expr = 'format!("(x {:0%dx})", self.%s)' % (2 * nb, fname)
                 dval_expr = val_expr
+            if "withdecoy" in flags:
+                attrs.append('with = "%s"' % DECOYS[t.rust][0])
             attr = ("    #[ssz(%s)]\n" % ", ".join(attrs)) if attrs else ""
             decl.append("%s    pub %s: %s," % (attr, fname, rust_ty))
             if "skip_ser" not in flags:
@@ -211,6 +213,8 @@ impl Model for {name} {{
         live_de = [t for t, fl in fields if "skip_de" not in fl]
 
         def is_fixed(t, fl):
+            if "withdecoy" in fl:
+                return DECOYS[t.rust][1]
             return t.fixed and "with" not in fl
         fixed = all(is_fixed(t, fl) for t, fl in fields if "skip_ser" not in fl)
         zero = fixed and all(t.zero for t, fl in fields if "skip_ser" not in fl)
@@ -253,11 +257,13 @@ impl Model for {name} {{
            gens=" ".join(gens), sym="true" if sym else "false"))
         fdesc = []
         for t, fl in fields:
-            nat = len([1 for k in ("skip_ser", "skip_de", "with", "withbe") if k in fl])
+            nat = len([1 for k in ("skip_ser", "skip_de", "with", "withbe", "withdecoy") if k in fl])
             if "with" in fl:
                 wexpr = 'format!("(legacy {})", <%s as Model>::ty())' % t.rust
             elif "withbe" in fl:
                 wexpr = '"(bytesn %d)".to_string()' % (2 if t.rust == "u16" else 4)
+            elif "withdecoy" in fl:
+                wexpr = DECOYS[t.rust][2]
             else:
                 wexpr = '"0".to_string()'
             fdesc.append('format!("(f {} %d %d {} %d)", <%s as Model>::ty(), %s)' % (
@@ -470,6 +476,23 @@ def build_fixed(g):
     g.container([(u16, {"withbe"})])
     g.container([(u32, {"withbe"}), (vec(u8), set()), (u16, {"withbe"})])
     g.container([(u8, set()), (u16, {"withbe"}), (vec(u16), {"with"}), (u32, {"withbe", "skip_ser", "skip_de"})])
+    # custom field codecs of another size class than the field type's own impls (decoys)
+    dF = T("DecoyF", True, default=True); dV = T("DecoyV", False, default=True); dL = T("DecoyL", True, default=True)
+    wd = {"withdecoy"}
+    g.container([(dV, wd)])
+    g.container([(dL, wd)])
+    g.container([(dF, wd)])
+    g.container([(u8, set()), (dV, wd), (u16, set())])
+    g.container([(dL, wd), (dV, wd)])
+    g.container([(u8, set()), (dF, wd), (u16, set())])
+    g.container([(dV, wd), (vec(u8), set()), (dL, wd)])
+    g.container([(dF, wd), (dV, wd), (dF, wd), (dL, wd)])
+    g.container([(vec(u16), set()), (dL, wd), (dF, wd)])
+    dc = g.container([(dL, wd), (dV, wd), (u8, set())])
+    A(vec(dc)); A(option(dc)); A(tup([u8, dc, vec(u8)]))
+    dcv = g.container([(u16, set()), (dF, wd)])
+    A(vec(dcv)); A(tup([dcv, dc]))
+    g.container([(dc, set()), (dcv, set()), (dV, wd)])
     g.container([(u8, set()), (ZERO, set())])
     g.container([(ZERO, set())])
     # transparent structs
@@ -633,7 +656,94 @@ macro_rules! be_codec {
 }
 be_codec!(be_u16, u16, 2);
 be_codec!(be_u32, u32, 4);
+
+/// Field types whose *native* `Encode` / `Decode` impls are decoys of another size class than the
+/// `#[ssz(with = "..")]` codec they are always used with: a derived container must take every piece
+/// of metadata and every byte of such a field from the codec module, never from the field type.
+/// `Model` describes the codec's view (schema and value).
+macro_rules! decoy_native {
+    ($t:ident, $fixed:expr, $len:expr) => {
+        impl Encode for $t {
+            fn is_ssz_fixed_len() -> bool { $fixed }
+            fn ssz_fixed_len() -> usize { $len }
+            fn ssz_bytes_len(&self) -> usize { $len }
+            fn ssz_append(&self, buf: &mut Vec<u8>) { buf.extend_from_slice(&[0xEE; $len]) }
+        }
+        impl Decode for $t {
+            fn is_ssz_fixed_len() -> bool { $fixed }
+            fn ssz_fixed_len() -> usize { $len }
+            fn from_ssz_bytes(_bytes: &[u8]) -> Result<Self, DecodeError> {
+                Err(DecodeError::BytesInvalid("decoy native impl consulted".into()))
+            }
+        }
+    };
+}
+/// codec: a byte list (variable-size); native decoy: fixed, 2 bytes
+#[derive(Debug, Clone, PartialEq, Default)]
+pub struct DecoyF(pub Vec<u8>);
+decoy_native!(DecoyF, true, 2);
+pub mod decoy_f {
+    pub mod encode {
+        pub fn is_ssz_fixed_len() -> bool { false }
+        pub fn ssz_fixed_len() -> usize { 4 }
+        pub fn ssz_bytes_len(v: &super::super::DecoyF) -> usize { v.0.len() }
+        pub fn ssz_append(v: &super::super::DecoyF, buf: &mut Vec<u8>) { buf.extend_from_slice(&v.0) }
+    }
+    pub mod decode {
+        pub fn is_ssz_fixed_len() -> bool { false }
+        pub fn ssz_fixed_len() -> usize { 4 }
+        pub fn from_ssz_bytes(bytes: &[u8]) -> Result<super::super::DecoyF, ssz::DecodeError> { Ok(super::super::DecoyF(bytes.to_vec())) }
+    }
+}
+impl Model for DecoyF {
+    fn ty() -> String { "bytelist".into() }
+    fn to_model(&self) -> String { if self.0.is_empty() { "(x)".into() } else { format!("(x {})", crate::model::hex(&self.0)) } }
+    fn gen(r: &mut Rng, size: usize) -> Self { let n = r.below(size + 1); DecoyF(r.bytes(n)) }
+}
+/// codec: exactly three bytes (fixed); native decoy: variable-size
+#[derive(Debug, Clone, PartialEq, Default)]
+pub struct DecoyV(pub [u8; 3]);
+decoy_native!(DecoyV, false, 4);
+/// codec: exactly two bytes (fixed); native decoy: fixed, 5 bytes
+#[derive(Debug, Clone, PartialEq, Default)]
+pub struct DecoyL(pub [u8; 2]);
+decoy_native!(DecoyL, true, 5);
+macro_rules! decoy_fixed_codec {
+    ($m:ident, $t:ident, $n:expr) => {
+        pub mod $m {
+            pub mod encode {
+                pub fn is_ssz_fixed_len() -> bool { true }
+                pub fn ssz_fixed_len() -> usize { $n }
+                pub fn ssz_bytes_len(_v: &super::super::$t) -> usize { $n }
+                pub fn ssz_append(v: &super::super::$t, buf: &mut Vec<u8>) { buf.extend_from_slice(&v.0) }
+            }
+            pub mod decode {
+                pub fn is_ssz_fixed_len() -> bool { true }
+                pub fn ssz_fixed_len() -> usize { $n }
+                pub fn from_ssz_bytes(bytes: &[u8]) -> Result<super::super::$t, ssz::DecodeError> {
+                    if bytes.len() != $n {
+                        return Err(ssz::DecodeError::InvalidByteLength { len: bytes.len(), expected: $n });
+                    }
+                    let mut a = [0u8; $n];
+                    a.copy_from_slice(bytes);
+                    Ok(super::super::$t(a))
+                }
+            }
+        }
+        impl Model for $t {
+            fn ty() -> String { format!("(bytesn {})", $n) }
+            fn to_model(&self) -> String { format!("(x {})", crate::model::hex(&self.0)) }
+            fn gen(r: &mut Rng, _size: usize) -> Self { let b = r.bytes($n); let mut a = [0u8; $n]; a.copy_from_slice(&b); $t(a) }
+        }
+    };
+}
+decoy_fixed_codec!(decoy_v, DecoyV, 3);
+decoy_fixed_codec!(decoy_l, DecoyL, 2);
 """
+
+DECOYS = {"DecoyF": ("decoy_f", False, '"bytelist".to_string()'),
+          "DecoyV": ("decoy_v", True, '"(bytesn 3)".to_string()'),
+          "DecoyL": ("decoy_l", True, '"(bytesn 2)".to_string()')}
 
 
 def main():
